@@ -60,6 +60,25 @@ def unit_design(entry, cfg, mode):
     return cosim.Design(hw, dut, list(ins), list(outs), '%s%r/%s' % (entry.name, cfg, mode))
 
 
+def pair_design(entry, cfg1, cfg2):
+    """Two differently configured instances of one catalogue block side by side (module-name collisions, shared bodies)."""
+    import py4hw
+    hw = py4hw.HWSystem()
+    D = cosim.Dut.cls('Dut')
+    with muted():
+        dut = D(hw, 'dut')
+        ins, outs = [], []
+        for k, cfg in enumerate((cfg1, cfg2)):
+            i, o = entry.build(dut, cfg, lambda n, w, k=k: hw.wire('%s_%d' % (n, k), w))
+            obj = dut.children.pop('d')
+            obj.name = 'd%d' % k
+            dut.children['d%d' % k] = obj
+            ins += list(i)
+            outs += list(o)
+        cosim.wrap_ports(dut, ins, outs)
+    return cosim.Design(hw, dut, ins, outs, '%s%r+%r/pair' % (entry.name, cfg1, cfg2))
+
+
 def seq_design(sentry, cfg):
     import py4hw
     hw = py4hw.HWSystem()
@@ -257,6 +276,14 @@ def judge(run, des, out, workload, block, cfg, mode, case):
             culprits = cosim.localise(des, out.interp)
         except Exception as e:
             culprits = [dict(error=repr(e)[:100])]
+        if workload == 'random' and case.get('plan') is not None and des.meta.get('sequential'):
+            # state may have diverged long before it reached an output: find the first point where internal nets part ways
+            try:
+                fd = cosim.first_divergence(lambda: dutgen.instantiate(case['plan']), case.get('vectors') or [], True, limit=m['cycle'])
+                if fd is not None:
+                    culprits = [dict(x, first_seen='cycle %d %s' % (fd[0], fd[1])) for x in fd[2]] + culprits
+            except Exception as e:
+                culprits.append(dict(error='first-divergence localisation: ' + repr(e)[:100]))
         case = dict(case, culprits=culprits[:6])
         if key == 'c01_output_mismatch' and culprits and 'block' in culprits[0]:
             fields['culprit_block'] = culprits[0]['block']
@@ -310,13 +337,22 @@ def _units(run, tier, seed, shard, deadline):
         for cfg in cfgs:
             for mode in ('direct', 'nested', 'twice'):
                 jobs.append((e, cfg, mode))
+    # pairs of different configurations of one block in one design
+    for e in catalog.ENTRIES:
+        cfgs = e.configs(tier)
+        if len(cfgs) < 2:
+            continue
+        rnd = rng(seed, 'c01-pair', e.name)
+        for _ in range(4 if quick else 40):
+            c1, c2 = rnd.sample(cfgs, 2)
+            jobs.append((e, (c1, c2), 'pair'))
     jobs = shard_slice(jobs, shard)
     for e, cfg, mode in jobs:
         if time.time() > deadline or run.too_many:
             break
         rnd = rng(seed, 'c01-unit-v', e.name, repr(cfg), mode)
         try:
-            des = unit_design(e, cfg, mode)
+            des = pair_design(e, cfg[0], cfg[1]) if mode == 'pair' else unit_design(e, cfg, mode)
         except Exception as ex:
             run.count('unit_build_failed')
             continue
